@@ -132,11 +132,28 @@ def r2_reader_rejects(ctx, res):
     key = 'expat-error-converted'
     tries = [n for n in walk_no_nested(ld.node) if isinstance(n, ast.Try)]
     res.inst(key, lmf.loc(ld.node), 'ExpatError -> LMFError around ParseFile')
-    ok = any('ParseFile' in norm(ast.Module(body=t.body, type_ignores=[])) and any(
+    ok = any(('.ParseFile(' in norm(ast.Module(body=t.body, type_ignores=[])) or '.Parse(' in norm(ast.Module(body=t.body, type_ignores=[])))
+             and any(
         h.type is not None and norm(h.type).endswith('ExpatError') and h.body and isinstance(h.body[-1], ast.Raise)
         and 'LMFError' in norm(h.body[-1]) for h in t.handlers) for t in tries)
     if not ok:
         res.find(key, lmf.loc(ld.node), 'load() no longer converts expat.ExpatError (ill-formed XML) into LMFError')
+    key = 'parse-finalised'
+    feeds = [n for n in walk_no_nested(ld.node) if isinstance(n, ast.Call) and isinstance(n.func, ast.Attribute)
+             and n.func.attr in ('Parse', 'ParseFile')]
+    res.inst(key, lmf.loc(ld.node), f'{[norm(c)[:40] for c in feeds]}')
+    if not feeds:
+        res.find(key, lmf.loc(ld.node), 'load() no longer feeds the file to the expat parser')
+    for c in feeds:
+        final = c.func.attr == 'ParseFile'
+        if c.func.attr == 'Parse':
+            a = c.args[1] if len(c.args) > 1 else next((k.value for k in c.keywords if k.arg == 'isfinal'), None)
+            final = isinstance(a, ast.Constant) and bool(a.value)
+        if not final:
+            res.find(key, lmf.loc(c), f'`{norm(c)[:60]}` feeds the parser without marking the end of input (Parse(data) defaults to '
+                                      f'isfinal=False): a truncated or unclosed document is accepted and a partial resource is returned / added')
+        if not any(any(c is x for x in ast.walk(ast.Module(body=t.body, type_ignores=[]))) for t in tries):
+            res.find(key + ':try', lmf.loc(c), 'the parse call is outside the try that converts ExpatError into LMFError')
     # LMFError is a wn.Error
     key = 'lmferror-is-wn-error'
     c = lmf.classes.get('LMFError')
